@@ -160,7 +160,7 @@ claim(
 claim(
     "C16",
     "Lean 4 proof (totality and error-class theorems for parse + build on every text; class lemmas for every later stage; model purity) + direct oracles on the real entry points over hostile inputs, call histories and fresh subprocesses",
-    "C16_total proves, for EVERY character string, configuration (gate set, autoload switch, import function) and override list, with no hypothesis, that the whole run parse → build → expand_subcircuits → fill_in_let → expand_macros → discovery / disjointness / resolution / serialisation → execute fails only with JaqalParseError / JaqalError / ImportError — never another exception class, never non-termination (no fuel exhaustion); it composes C02_no_fuel_error, C16_parse_build_total, built_typed / built_scoped / built_fits, C09_total_class, C05_total_class, C04_total_class, expand_flat, flatT_execClass, C03_serialize and C08_terminates. C16_pos proves that a parse error's position is EOF or the line and column of a token start of the text / of the character the lexer refuses. C16_deterministic / C16_history_perm / C16_history_interleave state purity of the model. The part of the property that lives in the Python process is checked by direct oracles: only JaqalError / ImportError over valid programs, token and character damage, every prefix, deep nesting (blocks, loops, macro chains), huge literals, missing and clashing pulse modules, no / two registers; error positions; termination under an alarm; outcome independent of call history in one process and equal to a fresh interpreter's.",
+    "C16_total proves, for EVERY character string, configuration (gate set, autoload switch, import function) and override list, with no hypothesis, that the whole run parse → build → expand_subcircuits → fill_in_let → expand_macros → discovery / disjointness / resolution / serialisation → execute fails only with JaqalParseError / JaqalError / ImportError — never another exception class, never non-termination (no fuel exhaustion); it composes C02_no_fuel_error, C16_parse_build_total, built_typed / built_scoped / built_fits, C09_total_class, C05_total_class, C04_total_class, expand_flat, flatT_execClass, C03_serialize and C08_terminates. C16_pos proves that a parse error's position is EOF or the line and column of a token start of the text / of the character the lexer refuses. C16_outputs_total / C16_outputs_no_crash_no_hang (Props/C16Outputs.lean) prove the same for the second execution entry point, parse_jaqal_output_list (Model/OutputList.lean): for every text, configuration and every output list whose consumed entries are outcomes 0..2^n-1 (as ints or n-character bit strings) it fails only with JaqalParseError / JaqalError / ImportError and never hangs; C16_outputs_classes / C16_outputs_odd_only say exactly where another class escapes (ValueError / IndexError / OverflowError, only from an invalid entry among the first |visits| outputs — outside what C15 and C16 quantify over); C16_outputs_pos(_same) give the position clause. C16_deterministic / C16_history_perm / C16_history_interleave state purity of the model. The part of the property that lives in the Python process is checked by direct oracles: only JaqalError / ImportError over valid programs, token and character damage, every prefix, deep nesting (blocks, loops, macro chains), huge literals, missing and clashing pulse modules, no / two registers; error positions; termination under an alarm; outcome independent of call history in one process and equal to a fresh interpreter's.",
     COMMON_NOTE + "CPython's recursion limit, memory exhaustion and numpy's sampler are runtime behaviour outside the model (converted to JaqalError at the entry points by fix commits; tested by the oracles, not proved). Error positions of JaqalErrors raised after parsing are not part of the model (the library attaches none there).",
     "DESIGN.md §7 C16",
 )
